@@ -57,6 +57,12 @@ shutil.copytree(seed, dst)
 os.makedirs(os.path.join(dst, "demo"), exist_ok=True)
 for f in added:
     shutil.copy(os.path.join(wt, f), os.path.join(dst, "demo", os.path.basename(f)))
+if os.environ.get("SEED_EVAL_CONFIRM_ONLY"):
+    # steps 1-2 only (can run in parallel for several worktrees); the checks are then run by
+    # `tools/seed_recheck.py [--fast] <name>` on a scratch worktree
+    json.dump(meta, open(os.path.join(dst, "meta.json"), "w"), indent=1)
+    print(json.dumps({k: meta[k] for k in ("confirmed", "existing_47_pass_with_change", "with_change", "without_change")}, indent=1))
+    sys.exit(0)
 # 3. run the checks against the patched /repo
 rc, _ = sh("git status --porcelain", "/repo")
 rc, o = sh(f"git apply {patch}", "/repo")
